@@ -332,6 +332,277 @@ theorem series_dnm_nonneg (g : Geod ℝ) (eps0 sbet1 cbet1 dn1 sbet2 cbet2 dn2 l
     0 ≤ (inverseStart g eps0 sbet1 cbet1 dn1 sbet2 cbet2 dn2 lam12 slam12 clam12).dnm :=
   inverseStart_dnm g eps0 sbet1 cbet1 dn1 sbet2 cbet2 dn2 lam12 slam12 clam12
 
+/-! #### closed forms of the equatorial and meridional answers, azimuth structure -/
+
+/-- **the equatorial answer** (`Geodesic.cpp` 318–325 followed by the area part and the sign restoration), for every kernel whose
+    area integral vanishes on the equator: `s12 = a·λ12`, `m12 = b·sin(λ12/f1)`, `M12 = M21 = cos(λ12/f1)`, `a12 = lon12/f1`,
+    `S12 = 0`, azimuths due east/west -/
+theorem equatorial_closed_form (p : Params ℝ) (k : Kernels ℝ) (β : Beta ℝ) (c : Canon ℝ) (ls sw lt : Int)
+    (hb : (genInverse p k β c ls sw lt).sol.branch = .equatorial)
+    (h1 : β.sbet1 = 0) (h2 : β.sbet2 = 0) (hc1 : 0 < β.cbet1) (hc2 : 0 < β.cbet2) (harea : k.area 1 0 1 0 = 0) :
+    (genInverse p k β c ls sw lt).out.s12 = p.a * (c.lon12 * degree) ∧
+    (genInverse p k β c ls sw lt).out.m12 = p.b * Real.sin (c.lon12 * degree / p.f1) ∧
+    (genInverse p k β c ls sw lt).out.M12 = Real.cos (c.lon12 * degree / p.f1) ∧
+    (genInverse p k β c ls sw lt).out.M21 = Real.cos (c.lon12 * degree / p.f1) ∧
+    (genInverse p k β c ls sw lt).out.a12 = c.lon12 / p.f1 ∧
+    (genInverse p k β c ls sw lt).out.S12 = 0 ∧
+    (genInverse p k β c ls sw lt).out.calp1 = 0 ∧ (genInverse p k β c ls sw lt).out.calp2 = 0 ∧
+    (genInverse p k β c ls sw lt).out.salp1 = (if sw * ls < 0 then -1 else 1) ∧
+    (genInverse p k β c ls sw lt).out.salp2 = (if sw * ls < 0 then -1 else 1) := by
+  have hs := (solve_equatorial p k β c hb).2
+  have hS : areaS12 p k β (solve p k β c).1 ls sw lt = 0 := by
+    rw [hs]; exact areaS12_equatorial p k β _ _ ls sw lt h1 h2 hc1 hc2 harea
+  have hr := restore_equatorial p c.lon12 (lam12Of c) ls sw lt (areaS12 p k β (solve p k β c).1 ls sw lt)
+  rw [← hs] at hr
+  exact ⟨hr.1, hr.2.1, hr.2.2.1, hr.2.2.2.1, hr.2.2.2.2.1, hS, hr.2.2.2.2.2.1, hr.2.2.2.2.2.2.1, hr.2.2.2.2.2.2.2.1,
+    hr.2.2.2.2.2.2.2.2⟩
+
+/-- the series solver's area integral does vanish on the equator (hypothesis `harea` above) -/
+theorem series_area_equatorial (g : Geod ℝ) (β : Beta ℝ) (h1 : β.sbet1 = 0) : areaSeries g β 1 0 1 0 = 0 :=
+  areaSeries_equatorial g β h1
+
+/-- **the meridional answer**: when the meridional branch answers, the end points are on a meridian (`lat1 = −90` or
+    `sin λ12 = 0`), the candidate was accepted, the canonical azimuths are `(sin λ12, cos λ12)` at point 1 and due north at point 2,
+    `σ12 = atan2(max(0, …), …)` is the difference of the arcs `tan σ1 = sbet1/(cos λ12 cbet1)`, `tan σ2 = sbet2/cbet2`, and the
+    lengths are `b` × the `Lengths` kernel at these arcs, or `0` when the short-line guard fired -/
+theorem meridional_closed_form (p : Params ℝ) (k : Kernels ℝ) (β : Beta ℝ) (c : Canon ℝ) (ls sw lt : Int)
+    (hb : (genInverse p k β c ls sw lt).sol.branch = .meridional) :
+    isMeridian c = true ∧ (meridional p k β c.slam12 c.clam12).accepted = true ∧
+    (genInverse p k β c ls sw lt).sol.salp1 = c.slam12 ∧ (genInverse p k β c ls sw lt).sol.calp1 = c.clam12 ∧
+    (genInverse p k β c ls sw lt).sol.salp2 = 0 ∧ (genInverse p k β c ls sw lt).sol.calp2 = 1 ∧
+    (meridional p k β c.slam12 c.clam12).sig12c =
+      RealLike.atan2 (max 0 (c.clam12 * β.cbet1 * β.sbet2 - β.sbet1 * β.cbet2)) (c.clam12 * β.cbet1 * β.cbet2 + β.sbet1 * β.sbet2) ∧
+    (genInverse p k β c ls sw lt).out.s12 =
+      (if (meridional p k β c.slam12 c.clam12).zeroed then 0
+       else (k.lenMerid (meridional p k β c.slam12 c.clam12).sig12c β.sbet1 (c.clam12 * β.cbet1) β.sbet2 β.cbet2).s12b) * p.b ∧
+    (genInverse p k β c ls sw lt).out.m12 =
+      (if (meridional p k β c.slam12 c.clam12).zeroed then 0
+       else (k.lenMerid (meridional p k β c.slam12 c.clam12).sig12c β.sbet1 (c.clam12 * β.cbet1) β.sbet2 β.cbet2).m12b) * p.b ∧
+    (genInverse p k β c ls sw lt).out.a12 =
+      (if (meridional p k β c.slam12 c.clam12).zeroed then 0 else (meridional p k β c.slam12 c.clam12).sig12c) / degree := by
+  have hs := solve_meridional p k β c hb
+  have hf := meridional_fields p k β c.slam12 c.clam12
+  have e : (genInverse p k β c ls sw lt).sol = (meridional p k β c.slam12 c.clam12).sol := hs.2.2
+  refine ⟨hs.1, hs.2.1, ?_, ?_, ?_, ?_, meridional_sig12c_eq p k β _ _, ?_, ?_, ?_⟩
+  · rw [e]; exact hf.1
+  · rw [e]; exact hf.2.1
+  · rw [e]; exact hf.2.2.1
+  · rw [e]; exact hf.2.2.2.1
+  · show (restore ls sw lt (solve p k β c).1 _).s12 = _
+    rw [restore_s12, hs.2.2]; exact hf.2.2.2.2.1
+  · show (restore ls sw lt (solve p k β c).1 _).m12 = _
+    rw [restore_m12, hs.2.2]; exact hf.2.2.2.2.2
+  · show (solve p k β c).1.a12 = _
+    rw [hs.2.2]; exact meridional_a12_eq p k β _ _
+
+/-- **azimuths on the meridional branch**: the azimuth at the point that was canonical point 2 is exactly `0` or `180`
+    (`±180` cannot be told apart over ℝ) … -/
+theorem meridional_azimuth_far (p : Params ℝ) (k : Kernels ℝ) (β : Beta ℝ) (c : Canon ℝ) (ls sw lt : Int)
+    (hb : (genInverse p k β c ls sw lt).sol.branch = .meridional) :
+    (0 ≤ sw → (genInverse p k β c ls sw lt).out.salp2 = 0 ∧
+      ((genInverse p k β c ls sw lt).azi2 = 0 ∨ (genInverse p k β c ls sw lt).azi2 = 180)) ∧
+    (sw < 0 → (genInverse p k β c ls sw lt).out.salp1 = 0 ∧
+      ((genInverse p k β c ls sw lt).azi1 = 0 ∨ (genInverse p k β c ls sw lt).azi1 = 180)) := by
+  have hm := meridional_closed_form p k β c ls sw lt hb
+  have h2 : (solve p k β c).1.salp2 = 0 := hm.2.2.2.2.1
+  have h3 : (solve p k β c).1.calp2 = 1 := hm.2.2.2.2.2.1
+  constructor
+  · intro hsw
+    have hn : ¬ sw < 0 := not_lt.mpr hsw
+    have es : (genInverse p k β c ls sw lt).out.salp2 = GeodInvFull.mulSign (sw * ls) (solve p k β c).1.salp2 := by
+      show GeodInvFull.mulSign (sw * ls) (if sw < 0 then _ else _) = _; rw [if_neg hn]
+    have ec : (genInverse p k β c ls sw lt).out.calp2 = GeodInvFull.mulSign (sw * lt) (solve p k β c).1.calp2 := by
+      show GeodInvFull.mulSign (sw * lt) (if sw < 0 then _ else _) = _; rw [if_neg hn]
+    have e0 : (genInverse p k β c ls sw lt).out.salp2 = 0 := by rw [es, h2]; exact mulSign_zero _
+    refine ⟨e0, ?_⟩
+    have ha : (genInverse p k β c ls sw lt).azi2 =
+        atan2d (genInverse p k β c ls sw lt).out.salp2 (genInverse p k β c ls sw lt).out.calp2 := rfl
+    rw [ha, e0, ec, h3]
+    exact atan2d_zero_pm_one _ (mulSign_pm_one _ 1 (Or.inl rfl))
+  · intro hsw
+    have es : (genInverse p k β c ls sw lt).out.salp1 = GeodInvFull.mulSign (sw * ls) (solve p k β c).1.salp2 := by
+      show GeodInvFull.mulSign (sw * ls) (if sw < 0 then _ else _) = _; rw [if_pos hsw]
+    have ec : (genInverse p k β c ls sw lt).out.calp1 = GeodInvFull.mulSign (sw * lt) (solve p k β c).1.calp2 := by
+      show GeodInvFull.mulSign (sw * lt) (if sw < 0 then _ else _) = _; rw [if_pos hsw]
+    have e0 : (genInverse p k β c ls sw lt).out.salp1 = 0 := by rw [es, h2]; exact mulSign_zero _
+    refine ⟨e0, ?_⟩
+    have ha : (genInverse p k β c ls sw lt).azi1 =
+        atan2d (genInverse p k β c ls sw lt).out.salp1 (genInverse p k β c ls sw lt).out.calp1 := rfl
+    rw [ha, e0, ec, h3]
+    exact atan2d_zero_pm_one _ (mulSign_pm_one _ 1 (Or.inl rfl))
+
+/-- … and when the points are on a common meridian proper (`sin λ12 = 0`, so `cos λ12 = ±1`: longitude difference 0 or 180) both
+    azimuths are exactly `0` or `180` -/
+theorem meridional_azimuths (p : Params ℝ) (k : Kernels ℝ) (β : Beta ℝ) (c : Canon ℝ) (ls sw lt : Int)
+    (hb : (genInverse p k β c ls sw lt).sol.branch = .meridional) (hsl : c.slam12 = 0) (hcl : c.clam12 = 1 ∨ c.clam12 = -1) :
+    ((genInverse p k β c ls sw lt).azi1 = 0 ∨ (genInverse p k β c ls sw lt).azi1 = 180) ∧
+    ((genInverse p k β c ls sw lt).azi2 = 0 ∨ (genInverse p k β c ls sw lt).azi2 = 180) := by
+  have hm := meridional_closed_form p k β c ls sw lt hb
+  have h0 : (solve p k β c).1.salp1 = 0 := by rw [← hsl]; exact hm.2.2.1
+  have h1 : (solve p k β c).1.calp1 = c.clam12 := hm.2.2.2.1
+  have h2 : (solve p k β c).1.salp2 = 0 := hm.2.2.2.2.1
+  have h3 : (solve p k β c).1.calp2 = 1 := hm.2.2.2.2.2.1
+  have hfar := meridional_azimuth_far p k β c ls sw lt hb
+  by_cases hsw : sw < 0
+  · refine ⟨(hfar.2 hsw).2, ?_⟩
+    have es : (genInverse p k β c ls sw lt).out.salp2 = GeodInvFull.mulSign (sw * ls) (solve p k β c).1.salp1 := by
+      show GeodInvFull.mulSign (sw * ls) (if sw < 0 then _ else _) = _; rw [if_pos hsw]
+    have ec : (genInverse p k β c ls sw lt).out.calp2 = GeodInvFull.mulSign (sw * lt) (solve p k β c).1.calp1 := by
+      show GeodInvFull.mulSign (sw * lt) (if sw < 0 then _ else _) = _; rw [if_pos hsw]
+    have ha : (genInverse p k β c ls sw lt).azi2 =
+        atan2d (genInverse p k β c ls sw lt).out.salp2 (genInverse p k β c ls sw lt).out.calp2 := rfl
+    rw [ha, es, ec, h0, h1, mulSign_zero]
+    exact atan2d_zero_pm_one _ (mulSign_pm_one _ _ hcl)
+  · refine ⟨?_, (hfar.1 (not_lt.mp hsw)).2⟩
+    have es : (genInverse p k β c ls sw lt).out.salp1 = GeodInvFull.mulSign (sw * ls) (solve p k β c).1.salp1 := by
+      show GeodInvFull.mulSign (sw * ls) (if sw < 0 then _ else _) = _; rw [if_neg hsw]
+    have ec : (genInverse p k β c ls sw lt).out.calp1 = GeodInvFull.mulSign (sw * lt) (solve p k β c).1.calp1 := by
+      show GeodInvFull.mulSign (sw * lt) (if sw < 0 then _ else _) = _; rw [if_neg hsw]
+    have ha : (genInverse p k β c ls sw lt).azi1 =
+        atan2d (genInverse p k β c ls sw lt).out.salp1 (genInverse p k β c ls sw lt).out.calp1 := rfl
+    rw [ha, es, ec, h0, h1, mulSign_zero]
+    exact atan2d_zero_pm_one _ (mulSign_pm_one _ _ hcl)
+
+/-! #### the symmetry laws for the whole function
+
+`uncanon_exchange`, `uncanon_equator`, `uncanon_meridian` above are about the tail of `GenInverse` over binary64 for an arbitrary
+core.  Here the core is the model of the rest of the function; over ℝ negation is exact, so the laws read as equalities. -/
+
+/-- **exchange of the end points** (`swapp ↦ −swapp` on the same canonical problem): `s12`, `m12`, `a12` unchanged, azimuth vectors
+    exchanged and reversed, `M12 ↔ M21`, `S12` negated — for every kernel -/
+theorem full_exchange (p : Params ℝ) (k : Kernels ℝ) (β : Beta ℝ) (c : Canon ℝ) (ls sw lt : Int) (hls : Sign ls) (hsw : Sign sw)
+    (hlt : Sign lt) :
+    (genInverse p k β c ls (-sw) lt).out.s12 = (genInverse p k β c ls sw lt).out.s12 ∧
+    (genInverse p k β c ls (-sw) lt).out.m12 = (genInverse p k β c ls sw lt).out.m12 ∧
+    (genInverse p k β c ls (-sw) lt).out.a12 = (genInverse p k β c ls sw lt).out.a12 ∧
+    (genInverse p k β c ls (-sw) lt).out.salp1 = -(genInverse p k β c ls sw lt).out.salp2 ∧
+    (genInverse p k β c ls (-sw) lt).out.calp1 = -(genInverse p k β c ls sw lt).out.calp2 ∧
+    (genInverse p k β c ls (-sw) lt).out.salp2 = -(genInverse p k β c ls sw lt).out.salp1 ∧
+    (genInverse p k β c ls (-sw) lt).out.calp2 = -(genInverse p k β c ls sw lt).out.calp1 ∧
+    (genInverse p k β c ls (-sw) lt).out.M12 = (genInverse p k β c ls sw lt).out.M21 ∧
+    (genInverse p k β c ls (-sw) lt).out.M21 = (genInverse p k β c ls sw lt).out.M12 ∧
+    (genInverse p k β c ls (-sw) lt).out.S12 = -(genInverse p k β c ls sw lt).out.S12 := by
+  rcases hls with rfl | rfl <;> rcases hsw with rfl | rfl <;> rcases hlt with rfl | rfl <;>
+    simp [genInverse, restore, areaS12, mulSign_real, lit_zero]
+
+/-- **reflection in the equator** (`latsign ↦ −latsign`): cosines of the azimuths negated (`azi ↦ 180 − azi`), `S12` negated -/
+theorem full_equator (p : Params ℝ) (k : Kernels ℝ) (β : Beta ℝ) (c : Canon ℝ) (ls sw lt : Int) (hls : Sign ls) (hsw : Sign sw)
+    (hlt : Sign lt) :
+    (genInverse p k β c ls sw (-lt)).out.s12 = (genInverse p k β c ls sw lt).out.s12 ∧
+    (genInverse p k β c ls sw (-lt)).out.m12 = (genInverse p k β c ls sw lt).out.m12 ∧
+    (genInverse p k β c ls sw (-lt)).out.a12 = (genInverse p k β c ls sw lt).out.a12 ∧
+    (genInverse p k β c ls sw (-lt)).out.M12 = (genInverse p k β c ls sw lt).out.M12 ∧
+    (genInverse p k β c ls sw (-lt)).out.M21 = (genInverse p k β c ls sw lt).out.M21 ∧
+    (genInverse p k β c ls sw (-lt)).out.salp1 = (genInverse p k β c ls sw lt).out.salp1 ∧
+    (genInverse p k β c ls sw (-lt)).out.calp1 = -(genInverse p k β c ls sw lt).out.calp1 ∧
+    (genInverse p k β c ls sw (-lt)).out.salp2 = (genInverse p k β c ls sw lt).out.salp2 ∧
+    (genInverse p k β c ls sw (-lt)).out.calp2 = -(genInverse p k β c ls sw lt).out.calp2 ∧
+    (genInverse p k β c ls sw (-lt)).out.S12 = -(genInverse p k β c ls sw lt).out.S12 := by
+  rcases hls with rfl | rfl <;> rcases hsw with rfl | rfl <;> rcases hlt with rfl | rfl <;>
+    simp [genInverse, restore, areaS12, mulSign_real, lit_zero]
+
+/-- **reflection in a meridian** (`lonsign ↦ −lonsign`): sines of the azimuths negated (`azi ↦ −azi`), `S12` negated -/
+theorem full_meridian (p : Params ℝ) (k : Kernels ℝ) (β : Beta ℝ) (c : Canon ℝ) (ls sw lt : Int) (hls : Sign ls) (hsw : Sign sw)
+    (hlt : Sign lt) :
+    (genInverse p k β c (-ls) sw lt).out.s12 = (genInverse p k β c ls sw lt).out.s12 ∧
+    (genInverse p k β c (-ls) sw lt).out.m12 = (genInverse p k β c ls sw lt).out.m12 ∧
+    (genInverse p k β c (-ls) sw lt).out.a12 = (genInverse p k β c ls sw lt).out.a12 ∧
+    (genInverse p k β c (-ls) sw lt).out.M12 = (genInverse p k β c ls sw lt).out.M12 ∧
+    (genInverse p k β c (-ls) sw lt).out.M21 = (genInverse p k β c ls sw lt).out.M21 ∧
+    (genInverse p k β c (-ls) sw lt).out.salp1 = -(genInverse p k β c ls sw lt).out.salp1 ∧
+    (genInverse p k β c (-ls) sw lt).out.calp1 = (genInverse p k β c ls sw lt).out.calp1 ∧
+    (genInverse p k β c (-ls) sw lt).out.salp2 = -(genInverse p k β c ls sw lt).out.salp2 ∧
+    (genInverse p k β c (-ls) sw lt).out.calp2 = (genInverse p k β c ls sw lt).out.calp2 ∧
+    (genInverse p k β c (-ls) sw lt).out.S12 = -(genInverse p k β c ls sw lt).out.S12 := by
+  rcases hls with rfl | rfl <;> rcases hsw with rfl | rfl <;> rcases hlt with rfl | rfl <;>
+    simp [genInverse, restore, areaS12, mulSign_real, lit_zero]
+
+/-- the same flags leave the branch, the iteration count and every canonical quantity alone: `solve` does not see them -/
+theorem flags_do_not_reach_the_solver (p : Params ℝ) (k : Kernels ℝ) (β : Beta ℝ) (c : Canon ℝ) (ls sw lt ls' sw' lt' : Int) :
+    (genInverse p k β c ls sw lt).sol = (genInverse p k β c ls' sw' lt').sol := rfl
+
+
+/-- non-vacuity of `equatorial_closed_form`, `s12_nonneg_equatorial`: on a sphere two equatorial points 90° apart are answered by the
+    equatorial branch, whatever the kernels -/
+example (k : Kernels ℝ) :
+    (genInverse ⟨1, 0, 1, 0, 0, 0, 1, 1, 1, 1, 1, 20, 83, 1, false⟩ k ⟨0, 1, 0, 1, 1, 1⟩ ⟨0, 90, 0, 1, 0⟩ 1 1 1).sol.branch = .equatorial := by
+  have h : (solve ⟨1, 0, 1, 0, 0, 0, 1, 1, 1, 1, 1, 20, 83, 1, false⟩ k ⟨0, 1, 0, 1, 1, 1⟩ ⟨0, 90, 0, 1, 0⟩).1 =
+      equatorial ⟨1, 0, 1, 0, 0, 0, 1, 1, 1, 1, 1, 20, 83, 1, false⟩ 90 (lam12Of ⟨0, 90, 0, 1, 0⟩) := by
+    unfold solve isMeridian equatorialTest
+    have h1 : ¬ ((0 : ℝ) = -(@OfNat.ofNat ℝ 90 RealLike.Lits.instLit)) := by rw [lit_real]; norm_num
+    have h2 : ¬ ((1 : ℝ) = (@OfNat.ofNat ℝ 0 RealLike.Lits.instLit)) := by rw [lit_zero]; norm_num
+    simp [h1, lit_zero]
+  show (solve _ k _ _).1.branch = _
+  rw [h]; rfl
+
+/-- non-vacuity of `meridional_closed_form`, `meridional_azimuths`: two points on the meridian `λ12 = 0` with a `Lengths` kernel that
+    returns `m12 = 0` are answered by the meridional branch -/
+example (st : StartOut ℝ) (lam : ℝ → ℝ → Nat → LamOut ℝ) (lf : LamOut ℝ → LenOut ℝ) (ar : ℝ → ℝ → ℝ → ℝ → ℝ) :
+    (genInverse ⟨1, 0, 1, 0, 0, 0, 1, 1, 1, 1, 1, 20, 83, 1, false⟩ ⟨fun _ _ _ _ _ => ⟨0, 0, 1, 1⟩, st, lam, lf, ar⟩
+      ⟨-1 / 2, 1 / 2, 0, 1, 1, 1⟩ ⟨-30, 0, 0, 0, 1⟩ 1 1 1).sol.branch = .meridional := by
+  have h : (solve ⟨1, 0, 1, 0, 0, 0, 1, 1, 1, 1, 1, 20, 83, 1, false⟩ ⟨fun _ _ _ _ _ => ⟨0, 0, 1, 1⟩, st, lam, lf, ar⟩
+      ⟨-1 / 2, 1 / 2, 0, 1, 1, 1⟩ ⟨-30, 0, 0, 0, 1⟩).1 =
+      (meridional ⟨1, 0, 1, 0, 0, 0, 1, 1, 1, 1, 1, 20, 83, 1, false⟩ ⟨fun _ _ _ _ _ => ⟨0, 0, 1, 1⟩, st, lam, lf, ar⟩
+        ⟨-1 / 2, 1 / 2, 0, 1, 1, 1⟩ 0 1).sol := by
+    unfold solve isMeridian
+    have hm : (RealLike.eqb (-30 : ℝ) (-(@OfNat.ofNat ℝ 90 RealLike.Lits.instLit)) ||
+        RealLike.eqb (0 : ℝ) (@OfNat.ofNat ℝ 0 RealLike.Lits.instLit)) = true := by rw [lit_zero]; simp
+    have ha : (meridional ⟨1, 0, 1, 0, 0, 0, 1, 1, 1, 1, 1, 20, 83, 1, false⟩ ⟨fun _ _ _ _ _ => ⟨0, 0, 1, 1⟩, st, lam, lf, ar⟩
+        ⟨-1 / 2, 1 / 2, 0, 1, 1, 1⟩ (0 : ℝ) 1).accepted = true := by
+      show (RealLike.ltb _ _ || RealLike.leb (@OfNat.ofNat ℝ 0 RealLike.Lits.instLit) (0 : ℝ)) = true
+      rw [lit_zero]; simp
+    simp only [hm, ↓reduceIte, ha]
+  show (solve _ _ _ _).1.branch = _
+  rw [h]; rfl
+
+/-! #### the binary64 laws, instantiated
+
+The laws `uncanon_exchange`, `uncanon_equator`, `uncanon_meridian` hold over the exact binary64 model for *every* core.  The
+following definition is the full series model executed in binary64 as such a core (the `sincosd` kernels by libm), and the three
+instantiations. -/
+
+/-- the series solver of `Model/GeodInvFull.lean` on the canonical problem, in binary64, as a core of the wrapper of
+    `Model/GeodInverse.lean` -/
+def seriesCoreF64 (a f : Float) (k : GeodInverse.Canon) : Core :=
+  let eps0 : Float := 2.220446049250313e-16
+  let g := geodesic a f (Float.sqrt 2.2250738585072014e-308) eps0
+  let sc (x : Float) : Float × Float := (Float.sin (x * (degree : Float)), Float.cos (x * (degree : Float)))
+  let lon12 := k.lon12.toFloat
+  let lon12e := k.lon12s.toFloat
+  let sl := sc (lon12 + lon12e)
+  let b1 := sc k.lat1.toFloat
+  let b2 := sc k.lat2.toFloat
+  let r := genInverseSeries g eps0 83 b1.1 b1.2 b2.1 b2.2 ⟨k.lat1.toFloat, lon12, lon12e, sl.1, sl.2⟩ 1 1 1
+  let o := r.out
+  ⟨F64.ofFloat o.s12, F64.ofFloat o.salp1, F64.ofFloat o.calp1, F64.ofFloat o.salp2, F64.ofFloat o.calp2, F64.ofFloat o.m12,
+   F64.ofFloat o.M12, F64.ofFloat o.M21, F64.ofFloat o.S12, F64.ofFloat o.a12⟩
+
+/-- exchange of the end points for the whole series solver in binary64 -/
+theorem series_f64_exchange (a f : Float) (k : GeodInverse.Canon) (hls : Sign k.lonsign) (hsw : Sign k.swapp) (hlt : Sign k.latsign) :
+    let r := uncanon k.lonsign k.swapp k.latsign (seriesCoreF64 a f k)
+    let r' := uncanon k.lonsign (-k.swapp) k.latsign (seriesCoreF64 a f k)
+    r'.s12 = r.s12 ∧ r'.m12 = r.m12 ∧ r'.a12 = r.a12 ∧
+    r'.salp1 = F64.neg r.salp2 ∧ r'.calp1 = F64.neg r.calp2 ∧ r'.salp2 = F64.neg r.salp1 ∧ r'.calp2 = F64.neg r.calp1 ∧
+    r'.M12 = r.M21 ∧ r'.M21 = r.M12 ∧ r'.S12 = F64.neg r.S12 :=
+  uncanon_exchange k.lonsign k.swapp k.latsign hls hsw hlt (seriesCoreF64 a f k)
+
+/-- reflection in the equator for the whole series solver in binary64 -/
+theorem series_f64_equator (a f : Float) (k : GeodInverse.Canon) (hls : Sign k.lonsign) (hsw : Sign k.swapp) (hlt : Sign k.latsign) :
+    let r := uncanon k.lonsign k.swapp k.latsign (seriesCoreF64 a f k)
+    let r' := uncanon k.lonsign k.swapp (-k.latsign) (seriesCoreF64 a f k)
+    r'.s12 = r.s12 ∧ r'.m12 = r.m12 ∧ r'.M12 = r.M12 ∧ r'.M21 = r.M21 ∧
+    r'.salp1 = r.salp1 ∧ r'.calp1 = F64.neg r.calp1 ∧ r'.salp2 = r.salp2 ∧ r'.calp2 = F64.neg r.calp2 ∧ r'.S12 = F64.neg r.S12 :=
+  uncanon_equator k.lonsign k.swapp k.latsign hls hsw hlt (seriesCoreF64 a f k)
+
+/-- reflection in a meridian for the whole series solver in binary64 -/
+theorem series_f64_meridian (a f : Float) (k : GeodInverse.Canon) (hls : Sign k.lonsign) (hsw : Sign k.swapp) (hlt : Sign k.latsign) :
+    let r := uncanon k.lonsign k.swapp k.latsign (seriesCoreF64 a f k)
+    let r' := uncanon (-k.lonsign) k.swapp k.latsign (seriesCoreF64 a f k)
+    r'.s12 = r.s12 ∧ r'.m12 = r.m12 ∧ r'.M12 = r.M12 ∧ r'.M21 = r.M21 ∧
+    r'.salp1 = F64.neg r.salp1 ∧ r'.calp1 = r.calp1 ∧ r'.salp2 = F64.neg r.salp2 ∧ r'.calp2 = r.calp2 ∧ r'.S12 = F64.neg r.S12 :=
+  uncanon_meridian k.lonsign k.swapp k.latsign hls hsw hlt (seriesCoreF64 a f k)
+
+
 end Full
 
 end GeoVerif.Props.C02
